@@ -38,14 +38,14 @@ def applyRecords (cfg : Option Config) : List FlowRecord → FlowMsg → Res Flo
     | .error e => .error e
     | .ok m' => applyRecords cfg rs m'
 
+/-- the message after Reset() and the sample-level assignments of SearchSFlowSampleConfig -/
+def sampleBase (rate inIf outIf : Nat) : FlowMsg :=
+  { FlowMsg.empty with type_ := 1, samplingRate := rate, inIf := inIf, outIf := outIf, packets := 1 }
+
 /-- SearchSFlowSampleConfig on a Reset() message; `none` for samples that are not flow samples -/
 def convertSample (cfg : Option Config) : Sample → Option (Res FlowMsg)
-  | .flow _ vals recs =>
-    let m : FlowMsg := { FlowMsg.empty with type_ := 1, samplingRate := vals.getD 0 0, inIf := vals.getD 3 0, outIf := vals.getD 4 0, packets := 1 }
-    some (applyRecords cfg recs m)
-  | .expFlow _ vals recs =>
-    let m : FlowMsg := { FlowMsg.empty with type_ := 1, samplingRate := vals.getD 0 0, inIf := vals.getD 4 0, outIf := vals.getD 6 0, packets := 1 }
-    some (applyRecords cfg recs m)
+  | .flow _ vals recs => some (applyRecords cfg recs (sampleBase (vals.getD 0 0) (vals.getD 3 0) (vals.getD 4 0)))
+  | .expFlow _ vals recs => some (applyRecords cfg recs (sampleBase (vals.getD 0 0) (vals.getD 4 0) (vals.getD 6 0)))
   | _ => none
 
 /-- SearchSFlowSamplesConfig: the first failing sample aborts everything (`return nil, err`) -/
